@@ -39,20 +39,40 @@ def decide_equal(ctx, rule, key, where, code, spec, what=""):
     extra = vocabulary(cu) - vocabulary(su) - vocabulary(spec_a)
     foreign = sorted(x for x in extra if _is_spelling_symbol(ctx.repo, x))
     if foreign and len(foreign) == len(extra):
-        raise AnalysisError(f"{where}: [{rule}] {key}: value uses symbols the statement's formula does not have ({', '.join(foreign)[:160]}); "
-                            f"it may be the same function spelled differently - re-bind the anchor")
+        ctx.undecided(rule, key, where, f"value uses library symbols the statement's formula does not have ({', '.join(foreign)[:160]}); it may be the same function "
+                                        f"spelled differently - cannot decide, re-bind the anchor")
+        return False
     ctx.violation(rule, key, where, f"{what} is {T.show(code_a)[:400]}  but the statement requires {T.show(spec_a)[:400]}", soft=True)
     return False
 
 
+# library symbols that build, convert, join, reshape or traverse containers, or respell arithmetic / reductions: a value that differs from
+# the formula only by bringing some of these may be the same function written differently.  Everything else (abs, round, sign, sort,
+# isclose, ceil, clip, a method of a domain object ...) changes values and stays a reportable difference.
+SPELLING_CALLS = {
+    "numpy.array", "numpy.asarray", "numpy.asanyarray", "numpy.concatenate", "numpy.hstack", "numpy.vstack", "numpy.column_stack", "numpy.row_stack",
+    "numpy.stack", "numpy.block", "numpy.append", "numpy.reshape", "numpy.ravel", "numpy.squeeze", "numpy.atleast_1d", "numpy.atleast_2d", "numpy.transpose",
+    "numpy.ones", "numpy.zeros", "numpy.full", "numpy.empty", "numpy.ones_like", "numpy.zeros_like", "numpy.copy", "numpy.fromiter", "numpy.r_", "numpy.c_",
+    "numpy.sum", "numpy.mean", "numpy.average", "numpy.dot", "numpy.matmul", "numpy.einsum", "numpy.inner", "numpy.outer", "numpy.linalg.norm",
+    "numpy.subtract", "numpy.add", "numpy.multiply", "numpy.divide", "numpy.true_divide", "numpy.square", "numpy.power", "numpy.hypot", "numpy.sqrt",
+    "numpy.any", "numpy.all", "numpy.where", "numpy.count_nonzero", "numpy.arange", "numpy.take", "numpy.meshgrid", "numpy.diff",
+    "list", "tuple", "dict", "set", "frozenset", "zip", "enumerate", "map", "filter", "range", "len", "sum", "max", "min", "any", "all", "iter", "next",
+    "reversed", "itertools.chain", "itertools.chain.from_iterable", "itertools.product", "itertools.combinations", "itertools.islice", "itertools.pairwise",
+    "operator.add", "operator.sub", "operator.mul", "operator.truediv", "operator.itemgetter", "operator.attrgetter", "functools.reduce", "math.sqrt", "math.hypot",
+    "math.fsum", "statistics.mean", "mean", "transpose", "matmul", "mod", "floordiv", "bitand", "bitor", "astype", "unpack_rest",
+}
+SPELLING_METHODS = {"items", "keys", "values", "get", "copy", "tolist", "astype", "reshape", "flatten", "ravel", "squeeze", "sum", "mean", "dot", "transpose",
+                    "index", "count", "extend", "append", "update", "setdefault", "union", "intersection", "any", "all", "max", "min", "join", "split", "format",
+                    "iterrows", "itertuples", "to_numpy", "isin"}
+
+
 def _is_spelling_symbol(repo, sym_):
-    """library calls, builtin / method names and keyword names can respell the same function; an attribute the formula does not read,
-    or a package function it does not call, is different DATA (a cache, another list) and stays a reportable difference"""
     if sym_.startswith("kw:"):
-        return True
+        return sym_[3:] in ("axis", "default", "dtype", "out", "keepdims", "key", "start", "repeat", "r", "shape", "ndmin", "copy", "order", "strict")
+    if sym_.startswith("call:m."):
+        return sym_[7:] in SPELLING_METHODS
     if sym_.startswith("call:"):
-        name = sym_[5:]
-        return name not in repo.functions and not name.startswith("new:")
+        return sym_[5:] in SPELLING_CALLS
     return False
 
 
